@@ -23,7 +23,7 @@ Lemma rib_tables_as_modelled :
   /\ gen_file_items_first = true /\ gen_block_items_first = true /\ gen_decl_init_first = true
   /\ gen_barrier_checked_first = true /\ gen_params_before_body = true /\ gen_resolve_conditions = true.
 Proof. vm_compute. repeat split. Qed.
-(* [gen_visit_excess_args] is not pinned: the model follows it, see Proofs/ResolveScoping.v *)
+(* [gen_excess_mode] and [gen_zip_skips_padding] are not pinned: the model follows them, see Proofs/ResolveScoping.v *)
 
 Lemma holds_locals_Locals : holds_locals TLocals = true. Proof. reflexivity. Qed.
 Lemma holds_locals_Params : holds_locals TParams = true. Proof. reflexivity. Qed.
